@@ -215,7 +215,7 @@ fn scenarios(root: &Path) -> Vec<Scenario> {
         false,
         (
             "workspace/didRenameFiles".into(),
-            json!({"files": [{"oldUri": b, "newUri": uri_of(&root.join("c.lua")).to_string()}]}),
+            json!({"files": [{"oldUri": a, "newUri": uri_of(&root.join("a2.lua")).to_string()}]}),
         ),
     );
     notif("setTrace", false, false, false, ("$/setTrace".into(), json!({"value": "off"})));
@@ -268,6 +268,10 @@ fn main() {
                 s.notify(&m, p).await;
                 s.advance_ms(3000).await;
             }
+            if sc.method == "workspace/didRenameFiles" {
+                // a.lua is required by b.lua: the handler asks the client whether to rewrite the require paths
+                let _ = std::fs::rename(root.join("a.lua"), root.join("a2.lua"));
+            }
             hook::install(true, false);
             let from = s.outbox.len();
             if sc.request {
@@ -307,10 +311,18 @@ fn main() {
             }
         }
         for (k, t) in order.iter().enumerate() {
-            let ops = &per_task[t];
+            let mut ops = per_task[t].clone();
             if ops.is_empty() {
                 continue;
             }
+            if *t == main_task {
+                // whatever runs on the main loop keeps the main loop busy: nothing else is dispatched and
+                // no client response is delivered meanwhile. Modelled as holding the pseudo-mutex `main`,
+                // which tasks awaiting a client response (ClientProxy::send_request hook) need.
+                ops.insert(0, json!(["acq", "main", "M"]));
+                ops.push(json!(["rel", "main", "M"]));
+            }
+            let ops = &ops;
             println!(
                 "{}",
                 json!({"program": format!("{name}#{k}"), "scenario": name, "task": k, "inline": *t == main_task, "ops": ops})
